@@ -58,7 +58,7 @@ def check(world, tier):
             a.ob(not inloop, "client-own-receive-loop in %s" % short(e.body), "the client has a receive loop of its own (a second data-phase implementation)", e.loc)
     from . import C01, C02, C08, C15
     for (mod, ids) in ((C01, ("C01.a", "C01.b")), (C02, ("C02.a", "C02.b", "C02.f")), (C08, ("C08.d",)), (C15, ("C15.b",))):
-        r = mod.check(world, tier)
+        r = run_rule(mod, world, tier)
         for cl in r.clauses:
             if cl.id in ids:
                 for f_ in cl.findings:
@@ -222,4 +222,12 @@ def check(world, tier):
         e_.ob(prints >= 1, "client-error-not-reported", "tftpc does not print the error returned by Client::run", sample={"eprintln in tftpc": prints})
     else:
         e_.fail("anchor-lost tftpc", "tftpc binary facts missing")
+    # interoperation for every option choice also needs: a truncating sink (C02.d), payload bound = block size + header (C02.e), and a
+    # server that uses exactly the values it acknowledged (C09.c / C09.d)
+    from . import C09
+    x14 = rep.clause("C14.f", "both ends agree on what was negotiated and on what a block is (shared with C02.d/e, C09.c/d)")
+    import_clause(world, tier, x14, C02, "C02.d", ("",), "truncating sink")
+    import_clause(world, tier, x14, C02, "C02.e", ("",), "payload bound")
+    import_clause(world, tier, x14, C09, "C09.c", ("",), "server uses the acknowledged values")
+    import_clause(world, tier, x14, C09, "C09.d", ("",), "only honourable values are acknowledged")
     return rep
